@@ -134,6 +134,171 @@ fn callchain_program(d: usize, g: usize, k: usize, exit: usize) -> (String, Stri
     (t, want)
 }
 
+
+/// `gosubnest` group: pending GOSUBs per activation. A subprogram W (SUB or FUNCTION) enters `p` nested GOSUB routines of
+/// its own and leaves them pending (GOTO out of the routines), optionally calls itself `d` levels deep while they are
+/// pending, optionally answers its own GOSUBs with `p` RETURNs after the inner call has ended (`r`), and ends; the module
+/// calls it from under `g` pending module-level GOSUBs, which are answered afterwards. `fin` 1 adds a RETURN too many at
+/// module level, `fin` 2 a bare RETURN in a fresh activation of W: both must be Return without GOSUB (3) at that row,
+/// whatever the ended activations left behind. Returns (text, expected stdout, expected error-3 row or None).
+fn gosubnest_program(function: bool, g: usize, calls: &[(i32, i32, i32)], fin: usize) -> (String, String, Option<u32>) {
+    let mut lines: Vec<String> = vec![];
+    let mut want = String::new();
+    let mut err_row = None;
+    let num = |n: i32| if n < 0 { format!("{} ", n) } else { format!(" {} ", n) };
+    fn sim(p: i32, d: i32, r: i32, out: &mut String, num: &dyn Fn(i32) -> String) -> bool {
+        out.push_str(&format!("w{}{}\r\n", num(p), num(d)));
+        if p < 0 {
+            return false;
+        }
+        for i in 1..=p {
+            out.push_str(&format!("g{}\r\n", i));
+        }
+        if d > 0 {
+            if !sim(p, d - 1, r, out, num) {
+                return false;
+            }
+            out.push_str(&format!("b{}\r\n", num(d)));
+        }
+        if r == 1 {
+            for u in 1..=p {
+                out.push_str(&format!("ret{}\r\n", num(u)));
+            }
+        }
+        true
+    }
+    let call = |p: i32, d: i32, r: i32| if function { format!("X% = W%({}, {}, {})", p, d, r) } else { format!("W {}, {}, {}", p, d, r) };
+    let mut call_lines: Vec<String> = vec![];
+    for (i, (p, d, r)) in calls.iter().enumerate() {
+        call_lines.push(call(*p, *d, *r));
+        call_lines.push(format!("PRINT \"c{}\"", i + 1));
+    }
+    if fin == 2 {
+        call_lines.push(call(-1, 0, 0));
+        call_lines.push("PRINT \"not here\"".into());
+    }
+    if g >= 1 {
+        lines.push("GOSUB M1".into());
+    } else {
+        lines.extend(call_lines.iter().cloned());
+    }
+    lines.push("PRINT \"end\"".into());
+    if fin == 1 {
+        lines.push("RETURN".into());
+        err_row = Some(lines.len() as u32);
+        lines.push("PRINT \"not here\"".into());
+    }
+    lines.push("END".into());
+    if g >= 1 {
+        lines.push("M1:".into());
+        lines.push("PRINT \"m1\"".into());
+        if g == 2 {
+            lines.push("GOSUB M2".into());
+            lines.push("PRINT \"m1r\"".into());
+            lines.push("RETURN".into());
+            lines.push("M2:".into());
+            lines.push("PRINT \"m2\"".into());
+        }
+        lines.extend(call_lines.iter().cloned());
+        lines.push("PRINT \"mr\"".into());
+        lines.push("RETURN".into());
+    }
+    // the subprogram
+    lines.push(if function { "FUNCTION W% (P%, D%, R%)".into() } else { "SUB W (P%, D%, R%)".to_string() });
+    lines.push("PRINT \"w\"; P%; D%".into());
+    lines.push("IF P% < 0 THEN".into());
+    lines.push("RETURN".into());
+    let sub_return_row = lines.len() as u32;
+    lines.push("END IF".into());
+    lines.push("IF P% >= 1 THEN".into());
+    lines.push("GOSUB G1".into());
+    lines.push("END IF".into());
+    lines.push("Leave:".into());
+    lines.push("IF D% > 0 AND T% = 0 THEN".into());
+    lines.push("T% = 1".into());
+    lines.push(if function { "X% = W%(P%, D% - 1, R%)".into() } else { "W P%, D% - 1, R%".to_string() });
+    lines.push("PRINT \"b\"; D%".into());
+    lines.push("END IF".into());
+    lines.push("IF R% = 1 AND U% < P% THEN".into());
+    lines.push("U% = U% + 1".into());
+    lines.push("PRINT \"ret\"; U%".into());
+    lines.push("RETURN".into());
+    lines.push("END IF".into());
+    lines.push(if function { "EXIT FUNCTION".into() } else { "EXIT SUB".to_string() });
+    for i in 1..=3 {
+        lines.push(format!("G{}:", i));
+        lines.push(format!("PRINT \"g{}\"", i));
+        if i < 3 {
+            lines.push(format!("IF P% >= {} THEN", i + 1));
+            lines.push(format!("GOSUB G{}", i + 1));
+            lines.push("END IF".into());
+        }
+        lines.push("GOTO Leave".into());
+    }
+    lines.push(if function { "END FUNCTION".into() } else { "END SUB".to_string() });
+    // expected output
+    if g >= 1 {
+        want.push_str("m1\r\n");
+    }
+    if g == 2 {
+        want.push_str("m2\r\n");
+    }
+    let mut alive = true;
+    for (i, (p, d, r)) in calls.iter().enumerate() {
+        if !sim(*p, *d, *r, &mut want, &num) {
+            alive = false;
+            break;
+        }
+        want.push_str(&format!("c{}\r\n", i + 1));
+    }
+    if alive && fin == 2 {
+        sim(-1, 0, 0, &mut want, &num);
+        err_row = Some(sub_return_row);
+        alive = false;
+    }
+    if alive {
+        if g >= 1 {
+            want.push_str("mr\r\n");
+        }
+        if g == 2 {
+            want.push_str("m1r\r\n");
+        }
+        want.push_str("end\r\n");
+    }
+    (lines.join("\n") + "\n", want, err_row)
+}
+
+fn gosubnest_cases() -> Vec<(bool, usize, Vec<(i32, i32, i32)>, usize)> {
+    let mut lists: Vec<Vec<(i32, i32, i32)>> = vec![];
+    for p in 0..=3 {
+        for d in 0..=2 {
+            for r in 0..=1 {
+                lists.push(vec![(p, d, r)]);
+            }
+        }
+    }
+    for p1 in 0..=3 {
+        for d1 in 0..=1 {
+            for r1 in 0..=1 {
+                for p2 in [0, 2] {
+                    lists.push(vec![(p1, d1, r1), (p2, 0, 0)]);
+                }
+            }
+        }
+    }
+    let mut out = vec![];
+    for function in [false, true] {
+        for g in 0..=2 {
+            for l in &lists {
+                for fin in 0..3 {
+                    out.push((function, g, l.clone(), fin));
+                }
+            }
+        }
+    }
+    out
+}
+
 pub fn worker(case: &Value) -> Value {
     if case["axis"].as_str() == Some("text") {
         let o = run_pipeline(case["text"].as_str().unwrap_or(""), &RunOpts { collect_files: true, ..RunOpts::default() });
@@ -190,6 +355,39 @@ pub fn worker(case: &Value) -> Value {
                     "text": text,
                     "case": {"axis": "text", "text": text},
                 }));
+            }
+        }
+        return json!({"n": n, "nontrivial": n, "hist": hist, "bad": bads});
+    }
+    if kind == "gosubnest" {
+        let all = gosubnest_cases();
+        let lo = case["lo"].as_u64().unwrap_or(0) as usize;
+        let hi = (case["hi"].as_u64().unwrap_or(0) as usize).min(all.len());
+        let mut bads = vec![];
+        let mut hist: std::collections::BTreeMap<String, u64> = Default::default();
+        let mut n = 0u64;
+        for (function, g, calls, fin) in &all[lo..hi] {
+            let (text, want, err_row) = gosubnest_program(*function, *g, calls, *fin);
+            let o = run_pipeline(&text, &RunOpts { budget: 200_000, ..RunOpts::default() });
+            n += 1;
+            let end_ok = match (&o.end, err_row) {
+                (vcore::outcome::End::Normal, None) => true,
+                (vcore::outcome::End::RuntimeError { code: Some(3), rows, .. }, Some(r)) => rows.first() == Some(&r),
+                _ => false,
+            };
+            if end_ok && o.stdout_str() == want {
+                *hist.entry(format!("agree:{}", o.end.class())).or_insert(0) += 1;
+            } else {
+                *hist.entry("differ".into()).or_insert(0) += 1;
+                if bads.len() < 20 {
+                    let pmax = calls.iter().map(|c| c.0).max().unwrap_or(0);
+                    bads.push(json!({
+                        "sig": format!("C05|gosubnest|{}|own-pending{}|module-pending{}|{}", if *function { "FUNCTION" } else { "SUB" }, pmax.min(2), (*g).min(1), ["normal end", "RETURN too many at module level", "bare RETURN in a fresh activation"][*fin]),
+                        "summary": format!("calls (own GOSUBs left pending, recursion depth, answers them itself) {:?} under {} pending module-level GOSUB(s), {}: expected output {:?} and {}, got {:?} and {:?} — program: {:?}", calls, g, ["normal end", "then a RETURN too many at module level", "then a bare RETURN in a fresh activation"][*fin], want, match err_row { None => "a normal end".to_string(), Some(r) => format!("error 3 at row {}", r) }, o.stdout_str(), o.end, super::truncate_text(&text, 900)),
+                        "text": text,
+                        "case": {"axis": "text", "text": text},
+                    }));
+                }
             }
         }
         return json!({"n": n, "nontrivial": n, "hist": hist, "bad": bads});
@@ -382,6 +580,14 @@ pub fn drive(tier: &str) -> i32 {
     plan.push(json!({"kind": "callchain", "programs": 54}));
     cases.push(json!({"k": "callgosub"}));
     plan.push(json!({"kind": "callgosub", "programs": 8}));
+    let gn = gosubnest_cases().len();
+    let mut lo = 0;
+    while lo < gn {
+        cases.push(json!({"k": "gosubnest", "lo": lo, "hi": (lo + 60).min(gn)}));
+        lo += 60;
+    }
+    plan.push(json!({"kind": "gosubnest", "programs": gn}));
+    states += gn as u64;
     cases.push(json!({"k": "header"}));
     plan.push(json!({"kind": "header", "programs": 28}));
     cases.push(json!({"k": "scope"}));
@@ -395,7 +601,7 @@ pub fn drive(tier: &str) -> i32 {
         run.capped = true;
     }
     let mut ev = Evidence::new("model_checking");
-    ev.set("rule", "jump layouts: up to 3 labelled blocks in every order (quick: two orders for 3 blocks), each ending in fall-through / END / RETURN / GOTO x / GOSUB x / RETURN x for every x, entered by fall-through or by GOTO, at module level and inside a SUB, every block counting its executions (the program stops after 7). loop escapes: every nest of 1..3 loops over {FOR, FOR STEP -1, WHILE, DO..LOOP UNTIL} with pairwise distinct bounds, a GOTO from the innermost body to a label in the body of every shallower level and after the nest, a GOSUB to a routine after the nest; the same with IF / ELSE / CASE / CASE ELSE blocks between the loops. jumps into a block: GOTO to a label in the middle of an IF / ELSEIF / ELSE / CASE / CASE ELSE block, a WHILE / DO body or an IF inside a WHILE, at module level and inside a SUB, once and three times in a row. GOSUB and calls: a RETURN inside a SUB that was called from a GOSUB routine, a GOSUB left behind by EXIT SUB / EXIT FUNCTION followed by a RETURN at module level (both Return without GOSUB, error 3, at the RETURN), and subprograms (also recursive ones) with their own GOSUB / RETURN pairs called from a GOSUB routine. RESUME label after an error inside a SUB, two calls deep, and below a pending GOSUB: the subprograms have ended, module-level variables and arrays are the module's again, a later unhandled error lists no call site. failing block headers: an IF / ELSEIF / second ELSEIF / single-line IF / WHILE / DO WHILE / DO UNTIL / LOOP WHILE / LOOP UNTIL condition, a SELECT CASE subject, a first / second CASE test, a FOR start / limit that divides by zero under ON ERROR GOTO + RESUME (the handler repairs the divisor), at module level and in a SUB: apart from the handler's line the output is that of the repaired program. jumps across scopes: GOTO / GOSUB / RETURN label from a SUB to a module-level label, from the module level into a SUB and from one SUB into another must be rejected with Label not defined at the row of the jump. one fault: 10 failing statement kinds (incl. a built-in that fails after a user FUNCTION has returned within the same statement, also a FUNCTION that itself executes ON ERROR RESUME NEXT) x 17 containers (main, IF / ELSE / ELSEIF blocks, single-line IF, first / middle / ELSE CASE blocks, FOR / FOR STEP / WHILE / DO bodies, an IF block that ends a FOR body, SUB and FUNCTION bodies, the end of the module with subprograms following) x 3 positions x 9 handler modes (none, RESUME with the operand repaired, RESUME NEXT, RESUME label, ON ERROR RESUME NEXT, ON ERROR GOTO 0, a handler that fails itself, and in loop bodies two handlers that resume the first and the second failure of the same statement differently) x handler action. handler histories: the full tree of sequences up to the depth over {ON ERROR GOTO H1, ON ERROR GOTO H2, ON ERROR GOTO 0, ON ERROR RESUME NEXT, failing statement, trace}. Every program is one path of the reference machine (explicit GOSUB stack, handler mode, pending error) replayed on the implementation; trace output, ERR values and the end state with its row are compared. callchain: an error 1..3 calls deep with 0..2 GOSUBs pending at module level and optionally one inside the first SUB, trapped by a module-level handler and left by RESUME label / RESUME NEXT / repair + RESUME, twice in a FOR loop: afterwards every pending module-level GOSUB is answered by its RETURN and the loop goes on (expected output by construction).");
+    ev.set("rule", "jump layouts: up to 3 labelled blocks in every order (quick: two orders for 3 blocks), each ending in fall-through / END / RETURN / GOTO x / GOSUB x / RETURN x for every x, entered by fall-through or by GOTO, at module level and inside a SUB, every block counting its executions (the program stops after 7). loop escapes: every nest of 1..3 loops over {FOR, FOR STEP -1, WHILE, DO..LOOP UNTIL} with pairwise distinct bounds, a GOTO from the innermost body to a label in the body of every shallower level and after the nest, a GOSUB to a routine after the nest; the same with IF / ELSE / CASE / CASE ELSE blocks between the loops. jumps into a block: GOTO to a label in the middle of an IF / ELSEIF / ELSE / CASE / CASE ELSE block, a WHILE / DO body or an IF inside a WHILE, at module level and inside a SUB, once and three times in a row. GOSUB and calls: a RETURN inside a SUB that was called from a GOSUB routine, a GOSUB left behind by EXIT SUB / EXIT FUNCTION followed by a RETURN at module level (both Return without GOSUB, error 3, at the RETURN), and subprograms (also recursive ones) with their own GOSUB / RETURN pairs called from a GOSUB routine. RESUME label after an error inside a SUB, two calls deep, and below a pending GOSUB: the subprograms have ended, module-level variables and arrays are the module's again, a later unhandled error lists no call site. failing block headers: an IF / ELSEIF / second ELSEIF / single-line IF / WHILE / DO WHILE / DO UNTIL / LOOP WHILE / LOOP UNTIL condition, a SELECT CASE subject, a first / second CASE test, a FOR start / limit that divides by zero under ON ERROR GOTO + RESUME (the handler repairs the divisor), at module level and in a SUB: apart from the handler's line the output is that of the repaired program. jumps across scopes: GOTO / GOSUB / RETURN label from a SUB to a module-level label, from the module level into a SUB and from one SUB into another must be rejected with Label not defined at the row of the jump. one fault: 10 failing statement kinds (incl. a built-in that fails after a user FUNCTION has returned within the same statement, also a FUNCTION that itself executes ON ERROR RESUME NEXT) x 17 containers (main, IF / ELSE / ELSEIF blocks, single-line IF, first / middle / ELSE CASE blocks, FOR / FOR STEP / WHILE / DO bodies, an IF block that ends a FOR body, SUB and FUNCTION bodies, the end of the module with subprograms following) x 3 positions x 9 handler modes (none, RESUME with the operand repaired, RESUME NEXT, RESUME label, ON ERROR RESUME NEXT, ON ERROR GOTO 0, a handler that fails itself, and in loop bodies two handlers that resume the first and the second failure of the same statement differently) x handler action. handler histories: the full tree of sequences up to the depth over {ON ERROR GOTO H1, ON ERROR GOTO H2, ON ERROR GOTO 0, ON ERROR RESUME NEXT, failing statement, trace}. Every program is one path of the reference machine (explicit GOSUB stack, handler mode, pending error) replayed on the implementation; trace output, ERR values and the end state with its row are compared. gosubnest: a SUB / FUNCTION that leaves 0..3 nested GOSUBs of its own pending when it ends, optionally calls itself 1..2 levels deep while they are pending and answers them itself after the inner activation has ended, called once or twice from under 0..2 pending module-level GOSUBs, which are answered afterwards; then a normal end, a RETURN too many at module level, or a bare RETURN in a fresh activation (both error 3 at that row): expected output by construction. callchain: an error 1..3 calls deep with 0..2 GOSUBs pending at module level and optionally one inside the first SUB, trapped by a module-level handler and left by RESUME label / RESUME NEXT / repair + RESUME, twice in a FOR loop: afterwards every pending module-level GOSUB is answered by its RETURN and the loop goes on (expected output by construction).");
     ev.set("exhaustive", !run.capped);
     ev.set("plan", json!(plan));
     ev.set("states", states);
